@@ -85,11 +85,16 @@ _c("C08",
    "Known findings D11b, D12b (what remains after the D11/D12 repairs).",
    technique="Lean 4 proof (agreement/frame invariants over an abstract stream semantics) + dependency table regenerated from measurements of the real components on every run, obligations closed by decide + whole-program differential replays")
 _c("C04",
-   "48 theorems (Props/C04.lean) over any ordered field and all sizes: GEBV/GEGV/predict are the stated linear forms (intercept contrast [1,1/q,..]); equivariance under any taxon index list with labels; phased = unphased projection = raw dosage; "
-   "marker-block additivity; var_A/var_G/var_a/bulmer/score definitions; the twelve favourable/deleterious/neutral allele functions equal their definitions and are mutually consistent; rrBLUP: intercept = training mean, monomorphic markers get exactly 0, "
-   "Gauss-Seidel never raises the energy so penalised SSE(u_hat) <= penalised SSE(0) for every tolerance and sweep limit, residual identity.",
-   "Nelder-Mead/eigh only through 'ridge > 0' (ridge recorded); BreedingValueMatrix round trip is C15's. Partial: normal_equations_partial (|residual| <= atol*row sums only when the loop stopped by tolerance). "
-   "Known finding D22: gauss_seidel silently returns the unconverged iterate after maxiter=1000 sweeps on ill-conditioned n>p training sets (counterexample proved with decide +kernel).")
+   "82 theorems (Props/C04.lean) over any ordered field and all sizes: GEBV/GEGV/predict (additive, dominance, miscellaneous effects) are the stated linear forms (intercept contrast [1,1/q,..]); "
+   "equivariance under any taxon index list with labels, also for the dominance model; TrueBreedingValue.estimate ignores the phenotype object and carries the genotype input's labels; phased = unphased projection = raw dosage; "
+   "marker-block additivity for the additive AND the dominance design; var_A/var_G/var_a/afreq/bulmer/score definitions; R^2 through a BreedingValueMatrix with ANY stored location/scale is 1-SSE/SST of the unscaled values about their own column mean; "
+   "the twelve favourable/deleterious/neutral allele functions equal their definitions and are mutually consistent; rrBLUP: intercept = training mean, monomorphic markers exactly 0, Gauss-Seidel never raises the energy so penalised SSE(u_hat) <= penalised SSE(0) for every tolerance and sweep limit, "
+   "the returned iterate is always one sweep from its predecessor with residual_i = sum_{j>i} A_ij (last step)_j (characterises what is returned at maxiter), convergence within an explicit sweep count under strict diagonal dominance (ridge_dominance_iff); "
+   "spec_sound + spec_complete for the values/statistics/alleles oracles, spec_sound for the Gauss-Seidel oracle and for clauses shapes/1/2/3 of the fitted-model oracle.",
+   "Nelder-Mead/eigh only through 'ridge > 0' (ml_ridge_positive: exp/exp > 0; ridge recorded); BreedingValueMatrix.from_numpy round trip is C15's; plain numpy outputs compared at 2^-45, matrix outputs at 1e-9. "
+   "Partial: normal_equations_partial / rrblup_normal_equations_partial (|residual| <= atol*row sums only when the loop stopped by tolerance), gegv_raw_eq_gm_partial (raw-array branch of the dominance model is diploid by documentation). "
+   "Known findings: D22 gauss_seidel returns the unconverged iterate after maxiter=1000 sweeps on ill-conditioned n>p training sets; D22b rrBLUP_ML0(gsatol=0) performs no sweep and returns all-zero effects "
+   "(counterexamples proved with decide +kernel; proposed patches patches/C04_D22.diff, patches/C04_D22b.diff).")
 _c("C07",
    "28 theorems (Props/C07.lean): for every duplicate-free decision, shape and draw sequence the subset configuration has shape (ncross,nparent), entries in the decision, each member used q or q+1 times, and on exit no exchange of two entries lowers the "
    "number of self-pairings (hill-climb terminates; for two-way crosses no self-pairing at all); integer/binary encodings: support and count bounds; mate selection rows are cross-map rows; the cross map lists exactly the ascending k-tuples once; "
